@@ -97,6 +97,7 @@ type Run struct {
 	readsWithoutDeadline int
 	bufGen          map[*Value]*Backing
 	bufResetPending map[*Value]bool
+	readerOrig      map[*Value]*Blob // bytes.Reader / strings.Reader: content at position 0 (for Seek)
 
 	// results
 	outcome   Outcome
@@ -149,6 +150,12 @@ func (r *Run) global(g *ssa.Global) *Value {
 			*pv = st
 			*p = Iface{T: types.NewPointer(t), V: pv}
 		}
+	}
+	if g.Pkg != nil && g.Pkg.Pkg.Path() == "net/http" && g.Name() == "DefaultClient" {
+		// var DefaultClient = &Client{} (net/http's initialiser is not executed)
+		c := new(Value)
+		*c = zero(r.P.NamedType("net/http", "Client"))
+		*p = c
 	}
 	r.globals[g] = p
 	return p
